@@ -8,7 +8,7 @@ EXPLANATION = ("proved: pickle state coverage of every solver class (every attri
                "bounded: in-process and cross-process (random PYTHONHASHSEED) round trips of annotated expressions and of solvers after histories")
 TECHNIQUE = "state-coverage obligations on __getstate__/__setstate__ + bounded round trips"
 RULE = _rtc.RTC_RULE
-FUNCTIONS = ["<SolverClass>.__getstate__/__setstate__ (all 9 solver classes)"]
+FUNCTIONS = ["<SolverClass>.__getstate__/__setstate__ (all 9 solver classes)", "claripy.fp.FSort.__eq__ / __hash__ / length / from_size / from_params (value semantics of non-AST arguments)", "claripy.fp.RM (Enum)"]
 TRUSTED = _rtc.RTC_TRUSTED
 ASSUMPTIONS = ["_tls is transient by design (re-created)"]
 
@@ -17,4 +17,5 @@ def tasks(tier, seed=0):
     from vf.contracts import statecov
     out = [task("vf.contracts.statecov", "ob_statecov", f"statecov.{c}/copy+ownership+pickle", ["C14", "C18"], replay="vf.contracts.statecov:replay", cls=c)
            for c in statecov.CLASSES]
+    out.append(task("vf.contracts.valueargs", "ob_fsort_value", "values.FSort+RM/equality-and-hash-by-value", ["C18", "C06"], replay="vf.contracts.valueargs:replay"))
     return out + _rtc.rtc_tasks("C18", tier, seed)
